@@ -272,14 +272,15 @@ fn explore_key(seed: u64, steps: usize, nkeys: i32) -> Result<(), String> {
     let mut vseq = 1000;
     for _ in 0..steps {
         let op = rng.below(12);
-        if rng.below(3) == 0 { time += rng.below(3) as i32; }
+        if rng.below(3) == 0 { time = time.saturating_add(rng.below(3) as i32); }
+        if seed % 5 == 2 && rng.below(40) == 0 { time = i32::MAX; } // the end of time: only the probe / nothing is live
         let k = rng.below(nkeys as u64) as i32;
         let live = |m: &Vec<(i32, i32, i32)>, t: i32| -> Vec<(i32, i32, i32)> { let mut v: Vec<_> = m.iter().cloned().filter(|e| e.1 > t).collect(); v.sort(); v };
         let lv = live(&model, time);
         match op {
             0..=3 => {
                 if lv.iter().any(|e| e.0 == k) { continue; }
-                let e = time + rng.below(5) as i32;
+                let e = if seed % 5 == 2 && rng.below(4) == 0 { i32::MAX } else { time.saturating_add(rng.below(5) as i32) };
                 vseq += 1;
                 h!(hist, "insert(k={},exp={},val={},t={}); ", k, e, vseq, time);
                 watch(time, k);
@@ -526,7 +527,7 @@ fn explore_seg(seed: u64, steps: usize) -> Result<(), String> {
         let (a, b) = if a <= b { (a, b) } else { (b, a) };
         match op {
             0..=3 => {
-                idseq += 1; let v = XV { id: idseq, exp: time + rng.below(5) as i32 - 1 };
+                idseq += 1; let v = XV { id: idseq, exp: if seed % 4 == 1 && rng.below(4) == 0 { i32::MAX } else { time + rng.below(5) as i32 - 1 } };
                 h!(hist, "insert([{},{}],id={},exp={}); ", a, b, v.id, v.exp);
                 t.insert_by_range(SegRange { min: a, max: b }, v); model.push((a, b, v));
             }
@@ -578,6 +579,44 @@ fn explore_key_bulk(seed: u64) -> Result<(), String> {
     Ok(())
 }
 
+// C08 / C09 / C13 / C17 on large collections: more than 2^16 entries (handles and positions far from small numbers)
+fn explore_bulk_handles(trees: bool) -> Result<(), String> {
+    let n = 70000i32;
+    if !trees {
+        let hist = format!("bulk: {} ascending keys inserted into the map list and the set list; ", n);
+        note(&hist);
+        let mut ml = i_tree::map::list::MapList::<i32, i32>::new(0);
+        let mut sl = SetList::<SV>::new(0);
+        for k in 0..n { ml.insert(k, k + 1); SetCollection::<i32, SV>::insert(&mut sl, SV { k, payload: k + 1 }); }
+        let mut pos = SetCollection::<i32, SV>::first_index_less(&sl, &0);
+        for k in 0..n {
+            let pl = ml.first_index_less(k);
+            if pl == EMPTY_REF || *ml.value_by_index(pl) != k + 1 { return Err(format!("[C13] {}-> map list: position {} for the stored key {} (the sentinel is {})", hist, pl, k, EMPTY_REF)); }
+            if pos == EMPTY_REF || SetCollection::<i32, SV>::value_by_index(&sl, pos).k != k { return Err(format!("[C13] {}-> set list: the forward walk reaches {} at key {} (the sentinel is {})", hist, pos, k, EMPTY_REF)); }
+            pos = SetCollection::<i32, SV>::index_after(&sl, pos);
+        }
+        if pos != EMPTY_REF { return Err(format!("[C13] {}-> set list: a step past the last position gives {}", hist, pos)); }
+        return Ok(());
+    }
+    let hist = format!("bulk: {} ascending keys inserted into the map tree and the set tree; ", n);
+    note(&hist);
+    let mut mt = MapTree::<i32, i32>::new(0);
+    let mut st = SetTree::<i32, SV>::new(0);
+    for k in 0..n { mt.insert(k, k + 1); st.insert(SV { k, payload: k + 1 }); }
+    if let Err(e) = map_tree_wf(&mt) { return Err(format!("[C02,C11] {}-> invariant broken: {}", hist, e)); }
+    if let Err(e) = set_tree_wf(&st) { return Err(format!("[C02,C11] {}-> invariant broken: {}", hist, e)); }
+    let mut h = st.first_index_less(&0);
+    for k in 0..n {
+        if mt.get_value(k) != Some(&(k + 1)) { return Err(format!("[C04] {}-> map tree lost key {}", hist, k)); }
+        let hm = mt.first_index_less(k);
+        if hm == EMPTY_REF || *mt.value_by_index(hm) != k + 1 { return Err(format!("[C08] {}-> map tree: handle {} for the stored key {}", hist, hm, k)); }
+        if h == EMPTY_REF || st.value_by_index(h).k != k { return Err(format!("[C09] {}-> set tree: the forward walk reaches handle {} at key {}", hist, h, k)); }
+        h = st.index_after(h);
+    }
+    if h != EMPTY_REF { return Err(format!("[C09] {}-> set tree: a step past the greatest entry gives {}", hist, h)); }
+    Ok(())
+}
+
 fn explore(which: &str, seeds: u64, steps: usize) -> Result<u64, String> {
     let past = PAST_INV.load(std::sync::atomic::Ordering::Relaxed);
     let mut first_inv: Option<String> = None;
@@ -585,8 +624,8 @@ fn explore(which: &str, seeds: u64, steps: usize) -> Result<u64, String> {
         let nkeys = if seed % 4 == 0 { 40 } else { 8 };
         let r = match which {
             "key" => if seed <= 15 { explore_key_bulk(seed).and_then(|_| explore_key(seed, steps, nkeys)) } else { explore_key(seed, steps, nkeys) },
-            "map" => explore_map(seed, steps, nkeys),
-            "set" => explore_set(seed, steps, nkeys),
+            "map" => if seed <= 2 { explore_bulk_handles(seed == 2) } else { explore_map(seed, steps, nkeys) },
+            "set" => if seed <= 2 { explore_bulk_handles(seed == 2) } else { explore_set(seed, steps, nkeys) },
             "seg" => explore_seg(seed, steps),
             _ => Err("unknown collection".to_string()),
         };
